@@ -6,13 +6,14 @@ props = {json.loads(l)["id"]: json.loads(l) for l in open(os.path.join(ROOT, "pr
 names = sorted(os.listdir(os.path.join(ROOT, "seeded")))
 # results of running an older snapshot of the checks (before the strengthening a seed prompted) against the seed
 before = {}
-for fn, sfx in (("oldwave.done", "-d"), ("old5.done", "")):
+for fn, sfx in (("oldwave.done", "-d"), ("old5.done", ""), ("old6.done", ""), ("seedwave7.first", "")):
     path = os.path.join(ROOT, "work", fn)
     if os.path.exists(path):
         for l in open(path, errors="replace"):
-            m = re.match(r"(C\d\d(?:-[a-z])?) .*SELFTEST .*: (CAUGHT|MISSED)", l)
+            m = re.match(r"(C\d\d(?:-[a-z])?)[: ].*?SELFTEST .*?: (CAUGHT|MISSED)", l)
             if m:
-                before[m.group(1) + (sfx if "-" not in m.group(1) else "")] = m.group(2)
+                key = m.group(1) + (sfx if "-" not in m.group(1) else "")
+                before.setdefault(key, m.group(2))
 for name in names:
     pid = name[:3]
     if pid not in props:
